@@ -917,6 +917,7 @@ func (s *Server) cmdXadd(d DB, a [][]byte) interface{} {
 		return ErrRep("ERR wrong number of arguments for 'xadd' command")
 	}
 	i := 1
+	trimAll := false
 	for i < len(a) {
 		o := strings.ToLower(string(a[i]))
 		if o == "nomkstream" {
@@ -927,6 +928,9 @@ func (s *Server) cmdXadd(d DB, a [][]byte) interface{} {
 			i++
 			if i < len(a) && (string(a[i]) == "~" || string(a[i]) == "=") {
 				i++
+			}
+			if o == "maxlen" && i < len(a) && string(a[i]) == "0" {
+				trimAll = true
 			}
 			i++
 			if i+1 < len(a) && strings.ToLower(string(a[i])) == "limit" {
@@ -950,6 +954,9 @@ func (s *Server) cmdXadd(d DB, a [][]byte) interface{} {
 	}
 	v.Stream.Entries = append(v.Stream.Entries, StreamEntry{ID: id, Fields: fields})
 	v.Stream.LastID = id
+	if trimAll {
+		v.Stream.Entries = nil // XADD key MAXLEN 0 id ..: the way to create an empty stream
+	}
 	return id
 }
 
@@ -964,13 +971,49 @@ func (s *Server) cmdXadmin(d DB, name string, a [][]byte) interface{} {
 		}
 		key = string(a[1])
 	}
-	create := name == "xgroup" || name == "xsetid"
+	create := false
+	for _, x := range a {
+		if name == "xgroup" && strings.EqualFold(string(x), "mkstream") {
+			create = true
+		}
+	}
 	v, e := s.getTyped(d, key, "stream", create)
 	if e != nil {
 		return e
 	}
 	if v == nil {
+		if name == "xgroup" {
+			return ErrRep("ERR The XGROUP subcommand requires the key to exist. Note that for CREATE you may want to use the MKSTREAM option to create an empty stream automatically.")
+		}
 		return ErrRep("ERR no such key")
+	}
+	// the argument checks of t_stream.c that a replayed snapshot can run into
+	for i := 0; i+1 < len(a); i++ {
+		switch o := strings.ToLower(string(a[i])); {
+		case name == "xgroup" && o == "entriesread":
+			n, err := strconv.ParseInt(string(a[i+1]), 10, 64)
+			if err != nil {
+				return ErrRep("ERR value is not an integer or out of range")
+			}
+			if n < -1 {
+				return ErrRep("ERR value for ENTRIESREAD must be positive or -1")
+			}
+		case name == "xsetid" && o == "entriesadded":
+			n, err := strconv.ParseInt(string(a[i+1]), 10, 64)
+			if err != nil || n < 0 {
+				return ErrRep("ERR entries_added must be positive")
+			}
+			if n < int64(len(v.Stream.Entries)) {
+				return ErrRep("ERR The entries_added specified in XSETID is smaller than the target stream length")
+			}
+		case name == "xsetid" && o == "maxdeletedid":
+			if len(a) > 1 && streamIDLess(string(a[1]), string(a[i+1])) {
+				return ErrRep("ERR The ID specified in XSETID is smaller than the provided max_deleted_entry_id")
+			}
+		}
+	}
+	if name == "xsetid" && len(a) > 1 && len(v.Stream.Entries) > 0 && streamIDLess(string(a[1]), v.Stream.Entries[len(v.Stream.Entries)-1].ID) {
+		return ErrRep("ERR The ID specified in XSETID is smaller than the target stream top item")
 	}
 	parts := []string{name}
 	for _, x := range a {
@@ -981,6 +1024,18 @@ func (s *Server) cmdXadmin(d DB, name string, a [][]byte) interface{} {
 		return []interface{}{}
 	}
 	return Simple("OK")
+}
+
+func streamIDLess(a, b string) bool {
+	pa, pb := strings.SplitN(a, "-", 2), strings.SplitN(b, "-", 2)
+	if len(pa) != 2 || len(pb) != 2 {
+		return false
+	}
+	am, _ := strconv.ParseUint(pa[0], 10, 64)
+	as, _ := strconv.ParseUint(pa[1], 10, 64)
+	bm, _ := strconv.ParseUint(pb[0], 10, 64)
+	bs, _ := strconv.ParseUint(pb[1], 10, 64)
+	return am < bm || (am == bm && as < bs)
 }
 
 func (s *Server) info(a [][]byte) interface{} {
